@@ -17,6 +17,7 @@ pub mod xbuild;
 pub mod indcheck;
 pub mod mrefs;
 pub mod tokfmt;
+pub mod buffered;
 #[cfg(feature = "xcheck")]
 pub mod srx;
 
